@@ -12,7 +12,7 @@ ops (1-D) and the tokens each one prints:
   L x        Locate                -> j jf          index on the used object, index on a fresh object
   I x / O x  Interpolate / operator() -> v vf vb    used, fresh with the same prefactor (Set_Prefactor on a new object), new object
   D x k      Derivative(x,k)       -> v vf vb
-  d x        Derivative(x) (default argument) -> v vf vb
+  d x        Derivative(x) (default argument) -> v vf vb    (vb: Derivative(x, 1) of a new object, written out)
   G a b      Integrate(a,b)        -> v vf vb
   m a b / M a b  Local_Minimum / Local_Maximum -> v vf bmin bmax    (Local_Minimum and Local_Maximum of new objects)
   gm / gM    Global_Minimum / Global_Maximum   -> v vf bmin bmax
@@ -38,9 +38,15 @@ LEVEL_TEXT = ("Theorems (Coq, unbounded, on an abstract number type with only th
               "Integrate / Local_* / Global_* / Set_Prefactor / Multiply / copy operations of any length and every further operation, the output "
               "(located indices and value, as the same term) equals that of a fresh object carrying the prefactor determined by the Set_Prefactor / "
               "Multiply calls alone; Interpolate and Derivative(1..3) return exactly that prefactor times the prefactor-free segment value; the same "
-              "for Interpolation_2D with its two helper objects. Not theorems: that the C++ code is the model (differential correspondence on every run: "
+              "for Interpolation_2D with its two helper objects. Constructors (every overload: vectors / rows, grid / data table, with the unit arguments x_dim, y_dim, "
+              "f_dim): a unit argument > 0 multiplies its table and nothing else, any other value (the default -1 included) leaves it alone, and the object starts "
+              "with prefactor 1, jLast 0, correlated_calls false whatever the unit arguments are, so that on an object built with units the prefactor after a "
+              "history is still the one of the Set_Prefactor / Multiply calls alone and every query answers as on a fresh object of the scaled table. Not theorems: that the C++ code is the model (differential correspondence on every run: "
               "every Locate index on used and fresh objects, prefactors, exits, all 2-D values) and the bit-identity of the C++ values themselves "
-              "(S4: every value of a used object is compared bit for bit with a fresh object's). The spline evaluation formulas are parameters of the "
+              "(S4: every value of a used object is compared bit for bit with a fresh object's — built by the same constructor overload with the same unit arguments — "
+              "and with the prefactor of the history times the value of a new object: exactly for Interpolate / operator() / Derivative / Local_* / Global_* and "
+              "the 2-D value, within the a-priori summation error for Integrate; a new object is anchored to the unit-scaled table at tabulated abscissae, by its "
+              "global extrema and by the public member domain). The spline evaluation formulas are parameters of the "
               "model (C01/C08). Save_Function is a sequence of Interpolate calls plus file output and is covered as such a history, it is not run. "
               "NaN arguments: Locate tests std::isnan first and exits; C09_nan_argument_exits proves Exit in every state, and the history theorems "
               "hold for NaN arguments as well (both objects exit).")
